@@ -740,6 +740,52 @@ pub fn churn_two<S: Strat>() {
     epilogue_p(vec![c], fil, vec![], false, "C03");
 }
 
+/// A guard migrates: A loads a guard and hands it to B (spawned by A, so that the hand-over is
+/// ordered), B reads through it and drops it, i.e. returns the debt to A's slot from another
+/// thread. A meanwhile keeps loading until its slot rotation comes back to that slot. C replaces
+/// the value and thereby destroys the old one. B's reads must happen before that destruction
+/// although the only path from B to C leads through A's slot.
+pub fn migrate<S: Strat>(fill: bool) {
+    rt::set_context_tag("C07");
+    let c = Cont::<S>::new(0, V::new(1));
+    let fil = filler::<S>();
+    let a = {
+        let (c, fil) = (c.clone(), fil.clone());
+        rt::spawn(move || {
+            let h = prologue(&fil, fill);
+            rt::quiet(|| rt::barrier(2));
+            let g = load(&c);
+            let b = rt::spawn(move || {
+                let l = g.peek_label();
+                use_value(&g, l, "guard used by another thread than the one that loaded it");
+                drop_guard(g);
+            });
+            // as many more leases as there are fast slots: the rotation passes the slot B empties
+            for _ in 0..SLOTS {
+                let g = load(&c);
+                let l = g.peek_label();
+                use_value(&g, l, "guard");
+                drop_guard(g);
+            }
+            b.join();
+            release(h);
+        })
+    };
+    let w = {
+        let (c, fil) = (c.clone(), fil.clone());
+        rt::spawn(move || {
+            let h = prologue(&fil, false);
+            rt::quiet(|| rt::barrier(2));
+            store(&c, V::new(11));
+            release(h);
+        })
+    };
+    rt::join_all();
+    a.join();
+    w.join();
+    epilogue_p(vec![c], fil, vec![], false, "C03");
+}
+
 /// Operations after the thread's local storage is gone (temporary node path), concurrent with a writer.
 pub fn tls_gone<S: Strat>(with_writer: bool) {
     let c = Cont::<S>::new(0, V::new(1));
